@@ -15,7 +15,7 @@ func init() {
 		Run: runC10,
 		Decided: "parse errors are built in one place each (ParseError in posErr, LangError in checkLang) and every ParseError carries the Incomplete bit computed as " +
 			"`at EOF and Incomplete()` (R10a); the two quantities Incomplete() reads are balanced: the open-node counter is decremented after each increment on every path (R10b) and " +
-			"every literal that is started is ended or discarded on every path that does not report an error (R10c); the byte offset that positions are derived from is advanced once per refill (R10d).",
+			"every literal that is started is ended or discarded on every path that does not report an error (R10c); the byte offset that positions are derived from is advanced once per refill (R10d). No parser bookkeeping slice is truncated in place while a saved alias is still read (R10f).",
 		NotDecided:  "that error positions lie inside the input; that every line-boundary prefix of a valid program is flagged incomplete (known gap, not a structural one: a prefix cut inside a here-document body fails with `unclosed here-document`, which is not marked incomplete).",
 		Assumptions: []string{"errors reach the caller only through Parser.err (set in errPass and fill)"},
 		Controls:    c10Controls,
